@@ -50,16 +50,15 @@ func propC17(c *Ctx, r *Report) {
 	r.floor("builtin.direction", 2)
 	r.Clauses = append(r.Clauses, "one numbering per flattened list (E90): where a backend appends to one list in several places and numbers the elements by len(list) in one of them, no other append to that list numbers its element by the key of an outer loop over something else - the later ordering by that number (the HLSL entry-point input struct restores argument order with it) would interleave the members of neighbouring parameters")
 	c.runMixedBasis(r, "index.mixedbasis", inPkgs("hlsl/internal/codegen", "msl/internal/codegen", "glsl/internal/codegen", "spirv/internal/codegen", "dxil/internal/emit"))
-	r.floor("index.mixedbasis", 1)
 	r.Clauses = append(r.Clauses, missReportedClause)
 	c.runMissReported(r, "bindmap.missreported", "hlsl/internal/codegen")
-	r.floor("bindmap.missreported", 2)
+	r.floor("bindmap.missreported", 1)
 	r.Clauses = append(r.Clauses, epSelectClause+" - the reflection data (texture-sampler pairs, entry-point names) is collected by such loops")
 	c.runEPSelectAgree(r, "epselect.agree", "glsl/internal/codegen")
-	r.floor("epselect.agree", 4)
+	r.floor("epselect.agree", 1)
 	r.Clauses = append(r.Clauses, nameDefaultClause)
 	c.runNameSilentDefault(r, "name.silentdefault", "wgsl/internal/lower", nil)
-	r.floor("name.silentdefault", 5)
+	r.floor("name.silentdefault", 1)
 	r.Clauses = append(r.Clauses, sameSliceClause)
 	c.runBoundsSameSlice(r, "bounds.sameslice", inPkgs("hlsl", "msl", "glsl", "spirv"))
 	r.floor("bounds.sameslice", 100)
